@@ -1,26 +1,600 @@
+// simcheck: the check driver.  One process supervises N forked workers; every worker executes
+// thousands of seeded plans in-process against reproc inside the simulated kernel.
+#include <cerrno>
+#include <chrono>
 #include <cstdio>
-#include "runner.hpp"
+#include <cstdlib>
+#include <cstring>
+#include <fcntl.h>
+#include <fstream>
+#include <sstream>
+#include <sys/mman.h>
+#include <sys/stat.h>
+#include <sys/wait.h>
+#include <unistd.h>
+#include <unordered_set>
+
+#include "check.hpp"
+
 using namespace simk;
-extern "C" __attribute__((used)) const char *__asan_default_options() { return "exitcode=77:detect_leaks=0:abort_on_error=0"; }
-int main(int argc, char **argv) {
-  if (!coro_selftest()) { fprintf(stderr, "coro selftest failed\n"); return 2; }
-  Plan p; p.seed = 1; p.profile = "smoke";
-  p.w.parent_env = { "PATH=/bin", "HOME=/root" };
-  ChildSpec c; c.script.push_back(Step{ Step::WRITE, 1, 10, 4 }); c.script.push_back(Step{ Step::SLEEP, 1, 20, 0 }); c.script.push_back(Step{ Step::EXIT, 1, 7, 0 });
-  p.children.push_back(c);
-  StartSpec s; s.args = { "a", "b c" }; p.starts.push_back(s);
-  auto op = [&](int k, int h, long long a = 0, long long b = 0) { Op o; o.kind = k; o.h = h; o.a = a; o.b = b; p.ops.push_back(o); };
-  op(OP_NEW, 0); { Op o; o.kind = OP_START; o.h = 0; o.spec = 0; p.ops.push_back(o); }
-  op(OP_PID, 0); op(OP_READ, 0, 1, 100); op(OP_READ, 0, 1, 100); op(OP_READ, 0, 1, 100); op(OP_READ, 0, 1, 100);
-  op(OP_WAIT, 0, -1); op(OP_WAIT, 0, 0); op(OP_DESTROY, 0);
+
+extern "C" __attribute__((used)) const char *__asan_default_options() { return "exitcode=77:detect_leaks=0:abort_on_error=0:detect_stack_use_after_return=0"; }
+extern "C" __attribute__((used)) const char *__ubsan_default_options() { return "print_stacktrace=1:halt_on_error=1:exitcode=77"; }
+extern "C" __attribute__((used)) const char *__tsan_default_options() { return "exitcode=66:halt_on_error=1:report_signal_unsafe=0"; }
+
+static double now_s() { return std::chrono::duration<double>(std::chrono::steady_clock::now().time_since_epoch()).count(); }
+
+static const PropCfg kProps[] = {
+  { "C01", "C01", "exploration", 0, 120000, 600,
+    "plan = one child ending with a stratified exit code 0..255 or signal 1..31 at a drawn virtual time + <=12 wait/stop/terminate/kill/poll/sleep ops placed around it; distinct = distinct event-log hash; non-trivial = the child was started" },
+  { "C02", "C02", "exploration", 0, 30000, 900,
+    "plan = scripted child writing position-coded bytes (sizes straddling the drawn pipe capacity up to multi-MiB) on stdout/stderr and consuming stdin, parent reading/polling/draining/writing with drawn buffer sizes, blocking or nonblocking, optional writer thread; distinct = distinct event-log hash; non-trivial = at least one payload byte moved" },
+  { "C03", "C03", "exploration", 0, 60000, 600,
+    "plan = one start with drawn argv/env bytes, env behaviour, working directory, program form and parent cwd depth (short .. beyond PATH_MAX), allocator/getcwd faults; oracle at the simulated exec; distinct = distinct event-log hash; non-trivial = start reached fork or failed in path construction" },
+  { "C04", "C04", "fault_enumeration", 1, 600, 900,
+    "scenario = drawn start configuration (incl. unexecutable inputs); cases = the fault-free run plus one run per (call site of start on either side of fork, outcome of that call kind), plus call-site pairs (sampled in quick, complete for scenarios <= 70 sites in thorough); distinct = distinct event-log hash; non-trivial = a fault fired or start failed" },
+  { "C05", "C05", "fault_enumeration", 1, 400, 900,
+    "scenario = drawn API history ending in destroy (or a start scenario); cases = fault-free run plus one run per (library call site of any op, outcome) with the ownership ledger (descriptors, heap blocks, children) checked at every close/free and at the end; distinct = distinct event-log hash; non-trivial = a fault fired" },
+  { "C06", "C06", "exploration", 0, 80000, 600,
+    "plan = 1-3 handles, orders of start(with faults)/terminate/kill/wait/stop/destroy before and after exit and reap, aggressive pid reuse (squatter or recycle); monitor on every kill/waitpid argument; distinct = distinct event-log hash; non-trivial = a child was started" },
+  { "C07", "C07", "exploration", 0, 150000, 900,
+    "plan = stop triple stratified over all 5^3 action triples x boundary timeouts x child behaviour (exits at T, dies/exits on SIGTERM after d, ignores it) x deadline x handle state, directly or through destroy; checked against the executable stop model; distinct = distinct event-log hash; non-trivial = stop reached a wait" },
+  { "C08", "C08", "exploration", 0, 100000, 900,
+    "plan = 1-4 handles with colliding deadlines (none/future/expired) + polls over 1-6 sources in drawn order with timeouts 0/finite/infinite colliding with the deadlines, waits with 0/finite/DEADLINE; bound checked on the blocking call itself and on return; distinct = distinct event-log hash; non-trivial = a poll or wait ran on a started handle" },
+  { "C09", "C09", "exploration", 0, 100000, 900,
+    "plan = 1-4 children with per-stream states (idle/data/closed by child/closed by parent/not a pipe) and polls with every interest mask over 1-6 sources incl. empty ones; events compared with the kernel's ground truth at the instant the underlying poll returned; distinct = distinct event-log hash; non-trivial = a poll ran on a started handle" },
+  { "C10", "C10", "exploration", 0, 31360, 600,
+    "complete enumeration of in(7) x out(7) x err(8) x shorthand(5) x caller descriptors 0-2 open/closed (8) x nonblocking(2) = 31360 configurations (invalid shorthand combinations fall back to the explicit ones); oracle = identity and direction of descriptors 0/1/2 at the simulated exec; distinct = distinct configuration index" },
+  { "C11", "C11", "exploration", 0, 40000, 600,
+    "plan = random extra caller descriptors (any number up to the limit, limit-1 included in a fixed fraction, with/without close-on-exec), descriptor limits 16..>1Mi, every redirect configuration, 1-4 threads starting children concurrently with pre-emption inside pipe creation; oracle = descriptor table at exec; distinct = distinct event-log hash" },
+  { "C12", "C12", "fault_enumeration", 1, 600, 900,
+    "scenario = drawn start configuration x caller mask (random 64-bit) x ignored/handled signals; cases = fault-free run plus one run per (call site of start, outcome) excluding the mask-restoring call; snapshot of mask/dispositions/cwd/environ around start and signal state at exec; distinct = distinct event-log hash" },
+  { "C14", "C14", "exploration", 0, 150000, 900,
+    "plan = 6-60 random ops over the whole API on 1-3 handles with arbitrary parameters, invalid/failing starts, fork mode, NULL handles, injected errors; every result compared with the life-cycle reference machine under ASan+UBSan; distinct = distinct event-log hash; non-trivial = at least one op ran on a started handle" },
+  { "C15", "C15", "exploration", 0, 100000, 600,
+    "plan = destroy on each of the 7 handle states (stratified by seed) x stop policy (default or stratified triple) x deadline x child behaviour; signal log time-stamps vs deadline, reaping, resources; distinct = distinct event-log hash; non-trivial = destroy ran on a started handle" },
+  { "C16", "C16", "exploration", 0, 60000, 900,
+    "plan = drain or run over children with drawn output volumes/interleavings/early closes, stderr piped/merged/elsewhere, callback/string/discard sinks failing at call k, realloc failure at growth step k, deadlines before/during/after output, EINTR; oracle over the recorded sink-call history; distinct = distinct event-log hash" },
+  { "C17", "C17", "exploration", 0, 80000, 600,
+    "plan = pipe state sweep (empty/partly filled/full/far side closed) x stream x nonblocking on/off x start-up input sizes around the capacity x child idle/slow/never reading; the scheduler observes whether a call parked; distinct = distinct event-log hash; non-trivial = a read/write ran on a started handle" },
+  { "C19", "C19", "exploration", 2, 40000, 600,
+    "plan = random API history (C14 generator, incl. faults) executed twice with identical seed/schedule/faults: through the C API and through reproc++; event-log hashes, per-op results and error-code mapping must agree; distinct = distinct event-log hash" },
+  { "C20", "C20", "exploration", 0, 30000, 900,
+    "plan = reader+writer(+stderr reader) threads on one echoing child, or 2-4 threads each running complete start/communicate/wait/destroy cycles, pre-empted at simulated-call granularity (probability 10-100%); cross-talk oracles in the asan lane, data races via TSan fibers in the tsan lane; distinct = distinct context-switch sequence hash" },
+};
+
+const PropCfg *prop_cfg(const std::string &id) {
+  for (auto &p : kProps) if (id == p.id) return &p;
+  return nullptr;
+}
+
+// ------------------------------------------------------------------ one case
+static void diff_viols(const Plan &plan, const RunResult &a, const RunResult &b, std::vector<Viol> &out) {
+  auto add = [&](const std::string &cls, const std::string &rest, const std::string &detail, int op) {
+    Viol v; v.prop = "C19"; v.cls = cls; v.sig = "C19/" + cls + (rest.empty() ? "" : "/" + rest); v.detail = detail; v.op = op;
+    out.push_back(v);
+  };
+  for (size_t i = 0; i < plan.ops.size() && i < a.res.size() && i < b.res.size(); i++) {
+    const OpRes &x = a.res[i], &y = b.res[i];
+    const char *on = op_name[plan.ops[i].kind];
+    if (x.ran != y.ran) { add("op-diverged", std::string("op=") + on, "an operation ran through one binding only", (int) i); break; }
+    if (!x.ran) continue;
+    // the C++ API cannot express a NULL handle; those ops are answered by the shim
+    if (x.ret != y.ret) { add("result-differs", std::string("op=") + on, "C returned " + std::to_string(x.ret) + ", reproc++ maps to " + std::to_string(y.ret), (int) i); break; }
+    if (x.events != y.events) { add("events-differ", std::string("op=") + on, "poll events differ between the bindings", (int) i); break; }
+    if (y.raw.ec) {
+      bool epipe = x.ret == -EPIPE;
+      int want_cat = epipe ? 2 : 1;
+      if (y.raw.cat != want_cat) { add("error-category", std::string("op=") + on, "error category differs from the documented mapping", (int) i); break; }
+    }
+  }
+  if (out.empty() && a.log_hash != b.log_hash) add("event-log-differs", "", "the two bindings produced different sequences of system calls for the same plan", -1);
+}
+
+CaseResult run_case(const PropCfg &cfg, const Plan &plan, RunResult *rr_out) {
+  CaseResult cr;
+  RunOpts ro;
+  if (cfg.mode == 2) {
+    Plan pc = plan, px = plan;
+    pc.w.binding = 0; px.w.binding = 1;
+    RunResult a = run_plan(pc, ro), b = run_plan(px, ro);
+    cr.viols = a.viols;
+    for (auto &v : b.viols) cr.viols.push_back(v);
+    if (a.fatal.empty() && b.fatal.empty() && !a.capped && !b.capped) diff_viols(plan, a, b, cr.viols);
+    cr.log_hash = a.log_hash * 31 + b.log_hash;
+    if (rr_out) *rr_out = std::move(a);
+    return cr;
+  }
+  RunResult rr = run_plan(plan, ro);
+  cr.viols = rr.viols;
+  if (!rr.fatal.empty()) {
+    Viol v; v.prop = cfg.id; v.cls = "fatal"; v.sig = std::string(cfg.id) + "/fatal/" + rr.fatal; v.detail = rr.fatal; cr.viols.push_back(v);
+  }
+  cr.log_hash = rr.log_hash;
+  if (rr_out) *rr_out = std::move(rr);
+  return cr;
+}
+
+// ------------------------------------------------------------------ worker
+struct Found { std::string sig, cls, prop, detail; uint64_t seed; std::string plan_json; uint64_t count = 0; };
+
+struct WorkerStats {
+  uint64_t cases = 0, scenarios = 0, nontrivial = 0, hung = 0, capped = 0, calls = 0, switches = 0, faults_fired = 0, rechecks = 0;
+  int64_t sim_ns = 0;
+  uint64_t probes[P_COUNT] = { 0 };
+  uint64_t fired[K_COUNT] = { 0 };
+  uint64_t kind_calls[K_COUNT] = { 0 };
+  std::unordered_set<uint64_t> hashes, scheds, tuples;
+  std::map<std::string, Found> found;       // own property
+  std::map<std::string, uint64_t> other;    // other properties' signatures seen (informational)
+  std::vector<std::string> samples;
+  bool nondet = false;
+  std::string nondet_info;
+};
+
+static void account(const PropCfg &cfg, WorkerStats &ws, const Plan &plan, const CaseResult &cr, const RunResult &rr, uint64_t seed) {
+  ws.cases++;
+  ws.calls += rr.calls;
+  ws.switches += rr.switches;
+  ws.sim_ns += rr.sim_ns;
+  if (rr.hung) ws.hung++;
+  if (rr.capped) ws.capped++;
+  bool fired = false;
+  for (int i = 0; i < P_COUNT; i++) ws.probes[i] += rr.probes[i];
+  for (int i = 0; i < K_COUNT; i++) { ws.fired[i] += rr.fired[i]; ws.kind_calls[i] += rr.kind_calls[i]; if (rr.fired[i]) fired = true; }
+  if (fired) ws.faults_fired++;
+  bool nontrivial = rr.probes[P_start_ok] || rr.probes[P_start_failed] || fired;
+  if (nontrivial) {
+    ws.nontrivial++;
+    if (ws.hashes.size() < 3000000) ws.hashes.insert(cr.log_hash);
+  }
+  if (ws.scheds.size() < 3000000) ws.scheds.insert(rr.sched_hash);
+  for (uint64_t t : rr.tuples) if (ws.tuples.size() < 1000000) ws.tuples.insert(t);
+  for (auto &v : cr.viols) {
+    if (v.prop != cfg.id) { ws.other[v.sig]++; continue; }
+    auto it = ws.found.find(v.sig);
+    if (it == ws.found.end()) {
+      if (ws.found.size() >= 24) continue;
+      Found f; f.sig = v.sig; f.cls = v.cls; f.prop = v.prop; f.detail = v.detail; f.seed = seed; f.plan_json = plan.to_json().dump(); f.count = 1;
+      ws.found[v.sig] = f;
+    } else it->second.count++;
+  }
+}
+
+static void run_one(const PropCfg &cfg, WorkerStats &ws, const Plan &plan, uint64_t seed, bool recheck) {
+  RunResult rr;
+  CaseResult cr = run_case(cfg, plan, &rr);
+  account(cfg, ws, plan, cr, rr, seed);
+  if (recheck) {
+    RunResult rr2;
+    CaseResult cr2 = run_case(cfg, plan, &rr2);
+    ws.rechecks++;
+    if (cr2.log_hash != cr.log_hash || cr2.viols.size() != cr.viols.size()) {
+      ws.nondet = true;
+      ws.nondet_info = "seed " + std::to_string(seed) + ": two executions of the same plan differ";
+    }
+  }
+}
+
+static bool is_restoring_sigmask(const CallSite &s) { return !s.child && s.kind == K_sigmask && s.nth >= 2; }
+
+// fault enumeration over one scenario
+static void enumerate_scenario(const PropCfg &cfg, WorkerStats &ws, const Plan &base, uint64_t seed, bool thorough, double deadline_s) {
+  ws.scenarios++;
+  std::string prop = cfg.id;
+  run_one(cfg, ws, base, seed, (seed & 63) == 0);
+  std::vector<int> trace_ops;
+  for (size_t i = 0; i < base.ops.size(); i++) {
+    int k = base.ops[i].kind;
+    if (prop == "C05" ? (k != OP_SLEEP && k != OP_NEW) : k == OP_START) trace_ops.push_back((int) i);
+    if (prop != "C05" && !trace_ops.empty()) break;  // the first start only
+  }
+  Rng pr = Rng::stream(seed, "pairs");
+  for (int top : trace_ops) {
+    RunOpts ro; ro.trace_op = top;
+    RunResult tr = run_plan(base, ro);
+    std::vector<CallSite> sites;
+    bool seen_dup2 = false;
+    int loop_probe_seen = 0;
+    for (auto &s : tr.sites) {
+      if (s.child && s.kind == K_dup2) seen_dup2 = true;
+      if (s.kind == K_free || s.kind == K_clock_gettime || s.kind == K__exit) continue;
+      // the child-side close loop probes every descriptor number with F_GETFD: a failing probe means "not open" by contract
+      if (s.child && s.kind == K_fcntl_getfd && !seen_dup2) continue;
+      // ... and closes the ones that are open: folded into one site (first, middle, last are enough)
+      if (s.child && s.kind == K_close && !seen_dup2) { if (++loop_probe_seen > 3) continue; }
+      if (prop == "C12" && is_restoring_sigmask(s)) continue;
+      sites.push_back(s);
+    }
+    auto with_fault = [&](Plan &p, const CallSite &s, const Outcome &o) {
+      Fault f; f.op = s.op; f.kind = s.kind; f.nth = s.nth; f.child = s.child; f.err = o.err; f.variant = o.variant;
+      p.faults.push_back(f);
+    };
+    for (auto &s : sites) {
+      for (auto &o : outcomes_for((Kind) s.kind, s.child)) {
+        Plan p = base;
+        with_fault(p, s, o);
+        run_one(cfg, ws, p, seed, false);
+      }
+      if (now_s() > deadline_s) return;
+    }
+    if (prop == "C05") continue;
+    // pairs
+    size_t n = sites.size();
+    bool complete = thorough && n <= 70;
+    size_t budget = complete ? n * n : (thorough ? 1500 : 24);
+    for (size_t q = 0; q < budget; q++) {
+      size_t i, j;
+      if (complete) { i = q / n; j = q % n; if (j <= i) continue; }
+      else { if (n < 2) break; i = pr.below(n); j = pr.below(n); if (i == j) continue; if (i > j) std::swap(i, j); }
+      auto oi = outcomes_for((Kind) sites[i].kind, sites[i].child), oj = outcomes_for((Kind) sites[j].kind, sites[j].child);
+      if (oi.empty() || oj.empty()) continue;
+      Plan p = base;
+      with_fault(p, sites[i], oi[pr.below(oi.size())]);
+      with_fault(p, sites[j], oj[pr.below(oj.size())]);
+      run_one(cfg, ws, p, seed, false);
+      if ((q & 63) == 0 && now_s() > deadline_s) return;
+    }
+  }
+}
+
+static std::string stats_json(const WorkerStats &ws) {
+  Json j = Json::obj();
+  j.set("cases", (unsigned long long) ws.cases).set("scenarios", (unsigned long long) ws.scenarios).set("nontrivial", (unsigned long long) ws.nontrivial);
+  j.set("hung", (unsigned long long) ws.hung).set("capped", (unsigned long long) ws.capped).set("calls", (unsigned long long) ws.calls);
+  j.set("switches", (unsigned long long) ws.switches).set("faults_fired", (unsigned long long) ws.faults_fired).set("rechecks", (unsigned long long) ws.rechecks);
+  j.set("sim_ns", (long long) ws.sim_ns);
+  Json pr = Json::arr(); for (int i = 0; i < P_COUNT; i++) pr.push((unsigned long long) ws.probes[i]); j.set("probes", pr);
+  Json fi = Json::arr(); for (int i = 0; i < K_COUNT; i++) fi.push((unsigned long long) ws.fired[i]); j.set("fired", fi);
+  Json kc = Json::arr(); for (int i = 0; i < K_COUNT; i++) kc.push((unsigned long long) ws.kind_calls[i]); j.set("kind_calls", kc);
+  Json fo = Json::arr();
+  for (auto &kv : ws.found) {
+    const Found &f = kv.second;
+    fo.push(Json::obj().set("sig", f.sig).set("cls", f.cls).set("prop", f.prop).set("detail", f.detail).set("seed", (unsigned long long) f.seed)
+                .set("plan", f.plan_json).set("count", (unsigned long long) f.count));
+  }
+  j.set("found", fo);
+  Json ot = Json::obj(); for (auto &kv : ws.other) ot.set(kv.first, (unsigned long long) kv.second); j.set("other", ot);
+  Json sm = Json::arr(); for (auto &s : ws.samples) sm.push(s); j.set("samples", sm);
+  j.set("nondet", ws.nondet).set("nondet_info", ws.nondet_info);
+  return j.dump();
+}
+
+struct Shared { volatile uint64_t cur_seed[64]; volatile uint64_t done[64]; };
+
+static void write_all(int fd, const std::string &s) {
+  size_t off = 0;
+  while (off < s.size()) { ssize_t n = write(fd, s.data() + off, s.size() - off); if (n <= 0) break; off += (size_t) n; }
+}
+
+static void worker_main(const PropCfg &cfg, int w, int nw, uint64_t base_seed, uint64_t nplans, double secs, bool thorough, Shared *sh, int out_fd,
+                        const std::string &hash_file) {
+  WorkerStats ws;
+  GenOpts go; go.thorough = thorough; go.binding = cfg.mode == 2 ? 0 : (strcmp(cfg.id, "C15") == 0 || strcmp(cfg.id, "C16") == 0 ? -1 : 0);
+  double t_end = now_s() + secs;
+  for (uint64_t i = (uint64_t) w; nplans == 0 || i < nplans; i += (uint64_t) nw) {
+    uint64_t seed = base_seed * 1000003ull + i;
+    sh->cur_seed[w] = seed;
+    if (getenv("SIM_PROGRESS")) fprintf(stderr, "w%d i=%llu seed=%llu\n", w, (unsigned long long) i, (unsigned long long) seed);
+    Plan plan = gen_plan(cfg.profile, seed, go);
+    if (cfg.mode == 2) {
+      // restrict to what both bindings express identically at the system-call level
+      for (auto &op : plan.ops) if (op.kind == OP_DRAIN || op.kind == OP_RUN) { if (op.a == 1 || op.a == 5 || op.a == 6) op.a = 2; if (op.b == 1 || op.b == 5 || op.b == 6) op.b = 2; if (op.d > 0) op.d = -op.d; op.e = 0; }
+      for (auto &s : plan.starts) s.clone = (seed >> 3) & 1;
+    }
+    if (ws.samples.size() < 2 && w == 0) ws.samples.push_back(plan.to_json().dump());
+    if (cfg.mode == 1) enumerate_scenario(cfg, ws, plan, seed, thorough, t_end);
+    else run_one(cfg, ws, plan, seed, (i / (uint64_t) nw) % 97 == 0);
+    sh->done[w]++;
+    if (ws.nondet) break;
+    if ((i / (uint64_t) nw) % 32 == 0 && now_s() > t_end) break;
+  }
+  sh->cur_seed[w] = 0;
+  // distinct hashes go to a side file so that the supervisor can count the union exactly
+  {
+    FILE *f = fopen(hash_file.c_str(), "wb");
+    if (f) {
+      for (uint64_t h : ws.hashes) fwrite(&h, 8, 1, f);
+      uint64_t sep = 0; fwrite(&sep, 8, 1, f); fwrite(&sep, 8, 1, f);
+      for (uint64_t h : ws.scheds) fwrite(&h, 8, 1, f);
+      fwrite(&sep, 8, 1, f); fwrite(&sep, 8, 1, f);
+      for (uint64_t h : ws.tuples) fwrite(&h, 8, 1, f);
+      fclose(f);
+    }
+  }
+  write_all(out_fd, stats_json(ws));
+  close(out_fd);
+  fflush(nullptr);
+  _exit(0);
+}
+
+// ------------------------------------------------------------------ supervisor
+static std::string read_file(const std::string &p) { std::ifstream f(p); std::stringstream ss; ss << f.rdbuf(); return ss.str(); }
+
+static int replay_file(const std::string &path) {
+  Json j;
+  if (!Json::parse(read_file(path), j)) { fprintf(stderr, "cannot parse %s\n", path.c_str()); return 2; }
+  Plan plan;
+  if (!Plan::from_json(j.at("plan"), &plan)) { fprintf(stderr, "bad plan in %s\n", path.c_str()); return 2; }
+  const Json &ex = j.at("expect");
+  const PropCfg *cfg = prop_cfg(ex.str("property"));
+  if (!cfg) return 2;
   RunOpts ro; ro.keep_log = true;
-  RunResult r = run_plan(p, ro);
-  printf("%s", r.log_text.c_str());
-  for (size_t i = 0; i < r.res.size(); i++) printf("op %zu %s ret=%lld calls=%u parked=%d\n", i, op_name[p.ops[i].kind], r.res[i].ret, r.res[i].calls, r.res[i].parked);
-  for (auto &v : r.viols) printf("VIOL %s %s : %s (op %d)\n", v.prop.c_str(), v.sig.c_str(), v.detail.c_str(), v.op);
-  printf("hung=%d capped=%d fatal=%s hash=%llx\n", r.hung, r.capped, r.fatal.c_str(), (unsigned long long) r.log_hash);
-  std::string js = p.to_json().dump(1);
-  Json j; Plan q; bool ok = Json::parse(js, j) && Plan::from_json(j, &q);
-  printf("json roundtrip %d same=%d\n", ok, ok && q.to_json().dump(1) == js);
+  Plan p1 = plan;
+  if (cfg->mode == 2) p1.w.binding = 0;
+  RunResult rr = run_plan(p1, ro);
+  printf("%s", rr.log_text.c_str());
+  CaseResult cr = run_case_forked(*cfg, plan);
+  for (size_t i = 0; i < rr.res.size(); i++)
+    if (rr.res[i].ran) printf("op %zu %-9s h=%d -> %lld  (%.3f..%.3f ms, %u calls%s)\n", i, op_name[plan.ops[i].kind], plan.ops[i].h, rr.res[i].ret,
+                              (double) rr.res[i].t0_ns / 1e6, (double) rr.res[i].t1_ns / 1e6, rr.res[i].calls, rr.res[i].parked ? ", parked" : "");
+  for (auto &v : cr.viols) printf("violation %s: %s (op %d)\n", v.sig.c_str(), v.detail.c_str(), v.op);
+  printf("log_hash=%llx expected=%llx hung=%d\n", (unsigned long long) cr.log_hash, (unsigned long long) ex.num("log_hash"), rr.hung);
+  std::string sig;
+  bool rep = has_viol(cr, ex.str("property"), ex.str("class"), &sig);
+  if (rep && cr.log_hash == (uint64_t) ex.num("log_hash")) { printf("VIOLATION property=%s replay=%s\n", ex.str("property").c_str(), path.c_str()); return 1; }
+  if (rep) { printf("violation reproduces but the event log differs (code under test changed?)\n"); return 1; }
+  printf("the recorded violation does not reproduce on this tree\n");
   return 0;
+}
+
+int main(int argc, char **argv) {
+  std::string prop, tier = "quick", replay, evidence_dir = "evidence", known_path = "known_findings.jsonl", lane = "asan";
+  uint64_t seed = 20261003, nplans = 0;
+  double secs = 0;
+  int nw = (int) sysconf(_SC_NPROCESSORS_ONLN);
+  if (getenv("VERIF_SEED")) seed = strtoull(getenv("VERIF_SEED"), nullptr, 10);
+  if (getenv("VERIF_TIER")) tier = getenv("VERIF_TIER");
+  for (int i = 1; i < argc; i++) {
+    std::string a = argv[i];
+    auto next = [&]() { return i + 1 < argc ? std::string(argv[++i]) : std::string(); };
+    if (a == "--property") prop = next();
+    else if (a == "--tier") tier = next();
+    else if (a == "--seed") seed = strtoull(next().c_str(), nullptr, 10);
+    else if (a == "--plans") nplans = strtoull(next().c_str(), nullptr, 10);
+    else if (a == "--secs") secs = atof(next().c_str());
+    else if (a == "--workers") nw = atoi(next().c_str());
+    else if (a == "--replay") replay = next();
+    else if (a == "--evidence-dir") evidence_dir = next();
+    else if (a == "--known") known_path = next();
+    else if (a == "--lane") lane = next();
+    else if (a == "--twice") {
+      Json j; Plan plan;
+      if (!Json::parse(read_file(next()), j) || !Plan::from_json(j.at("plan"), &plan)) return 2;
+      RunOpts ro; ro.keep_log = true;
+      RunResult a1 = run_plan(plan, ro), a2 = run_plan(plan, ro);
+      printf("hash %llx %llx\n", (unsigned long long) a1.log_hash, (unsigned long long) a2.log_hash);
+      for (auto &v : a1.viols) printf("run1 %s: %s\n", v.sig.c_str(), v.detail.c_str());
+      for (auto &v : a2.viols) printf("run2 %s: %s\n", v.sig.c_str(), v.detail.c_str());
+      size_t i = 0;
+      while (i < a1.log_text.size() && i < a2.log_text.size() && a1.log_text[i] == a2.log_text[i]) i++;
+      size_t ls = a1.log_text.rfind('\n', i);
+      if (ls == std::string::npos) ls = 0;
+      size_t from = ls > 600 ? ls - 600 : 0;
+      printf("--- first run around divergence\n%s\n--- second run\n%s\n", a1.log_text.substr(from, 1200).c_str(), a2.log_text.substr(from, 1200).c_str());
+      return 0;
+    }
+    else if (a == "--gen") { GenOpts go; Plan p = gen_plan(next(), seed, go); printf("%s\n", p.to_json().dump(1).c_str()); return 0; }
+  }
+  if (!coro_selftest()) { fprintf(stderr, "MACHINERY: sanitizer shadow mapping self-test failed\n"); return 2; }
+  if (!replay.empty()) return replay_file(replay);
+  const PropCfg *cfg = prop_cfg(prop);
+  if (!cfg) { fprintf(stderr, "unknown property '%s'\n", prop.c_str()); return 2; }
+  bool thorough = tier == "thorough";
+  if (nw < 1) nw = 1;
+  if (nw > 64) nw = 64;
+  if (nplans == 0 && secs == 0) { if (thorough) secs = cfg->thorough_secs; else nplans = cfg->quick_plans; }
+  if (secs == 0) secs = thorough ? cfg->thorough_secs : 600;
+  if (thorough && getenv("VERIF_THOROUGH_SECS")) secs = atof(getenv("VERIF_THOROUGH_SECS"));
+  double t0 = now_s();
+
+  Shared *sh = (Shared *) mmap(nullptr, sizeof(Shared), PROT_READ | PROT_WRITE, MAP_SHARED | MAP_ANONYMOUS, -1, 0);
+  memset((void *) sh, 0, sizeof *sh);
+  std::string tmpdir = std::string("build/tmp.") + std::to_string(getpid());
+  mkdir("build", 0755);
+  mkdir(tmpdir.c_str(), 0755);
+  mkdir("replays", 0755);
+  mkdir(evidence_dir.c_str(), 0755);
+  struct W { pid_t pid; int fd; std::string out; bool dead = false; int status = 0; };
+  std::vector<W> ws((size_t) nw);
+  fflush(nullptr);
+  for (int w = 0; w < nw; w++) {
+    int fds[2];
+    if (pipe(fds) < 0) return 2;
+    pid_t pid = fork();
+    if (pid == 0) {
+      close(fds[0]);
+      for (int k = 0; k < w; k++) close(ws[(size_t) k].fd);
+      worker_main(*cfg, w, nw, seed, nplans, secs, thorough, sh, fds[1], tmpdir + "/h" + std::to_string(w));
+    }
+    close(fds[1]);
+    ws[(size_t) w].pid = pid;
+    ws[(size_t) w].fd = fds[0];
+  }
+  // collect
+  for (auto &w : ws) {
+    char buf[65536];
+    for (;;) { ssize_t n = read(w.fd, buf, sizeof buf); if (n <= 0) break; w.out.append(buf, (size_t) n); }
+    close(w.fd);
+    waitpid(w.pid, &w.status, 0);
+    w.dead = !WIFEXITED(w.status) || WEXITSTATUS(w.status) != 0;
+  }
+  // merge
+  WorkerStats tot;
+  std::map<std::string, Found> found;
+  bool machinery = false;
+  std::string machinery_info;
+  for (int w = 0; w < nw; w++) {
+    W &x = ws[(size_t) w];
+    if (x.dead) {
+      // the plan the worker was executing crashed it: sanitizer report, abort, fatal signal
+      uint64_t cs = sh->cur_seed[w];
+      GenOpts go; go.thorough = thorough;
+      Found f;
+      bool san = WIFEXITED(x.status) && (WEXITSTATUS(x.status) == 77 || WEXITSTATUS(x.status) == 66);
+      f.prop = cfg->id; f.cls = "crash";
+      f.sig = std::string(cfg->id) + "/crash/" + (san ? "sanitizer" : WIFSIGNALED(x.status) ? "signal-" + std::to_string(WTERMSIG(x.status)) : "exit");
+      f.detail = "a worker died while executing this plan (sanitizer report, abort or fatal signal)";
+      f.seed = cs;
+      f.plan_json = gen_plan(cfg->profile, cs, go).to_json().dump();
+      f.count = 1;
+      if (cfg->mode == 1) { machinery = machinery || false; }
+      found[f.sig] = f;
+      continue;
+    }
+    Json j;
+    if (!Json::parse(x.out, j)) { machinery = true; machinery_info = "worker output unreadable"; continue; }
+    tot.cases += (uint64_t) j.num("cases"); tot.scenarios += (uint64_t) j.num("scenarios"); tot.nontrivial += (uint64_t) j.num("nontrivial");
+    tot.hung += (uint64_t) j.num("hung"); tot.capped += (uint64_t) j.num("capped"); tot.calls += (uint64_t) j.num("calls");
+    tot.switches += (uint64_t) j.num("switches"); tot.faults_fired += (uint64_t) j.num("faults_fired"); tot.rechecks += (uint64_t) j.num("rechecks");
+    tot.sim_ns += j.num("sim_ns");
+    for (int i = 0; i < P_COUNT && (size_t) i < j.at("probes").size(); i++) tot.probes[i] += (uint64_t) j.at("probes")[(size_t) i].as_int();
+    for (int i = 0; i < K_COUNT && (size_t) i < j.at("fired").size(); i++) tot.fired[i] += (uint64_t) j.at("fired")[(size_t) i].as_int();
+    for (int i = 0; i < K_COUNT && (size_t) i < j.at("kind_calls").size(); i++) tot.kind_calls[i] += (uint64_t) j.at("kind_calls")[(size_t) i].as_int();
+    const Json &fo = j.at("found");
+    for (size_t i = 0; i < fo.size(); i++) {
+      Found f; f.sig = fo[i].str("sig"); f.cls = fo[i].str("cls"); f.prop = fo[i].str("prop"); f.detail = fo[i].str("detail");
+      f.seed = (uint64_t) fo[i].num("seed"); f.plan_json = fo[i].str("plan"); f.count = (uint64_t) fo[i].num("count");
+      auto it = found.find(f.sig);
+      if (it == found.end()) found[f.sig] = f;
+      else { it->second.count += f.count; if (f.plan_json.size() < it->second.plan_json.size()) { uint64_t c = it->second.count; it->second = f; it->second.count = c; } }
+    }
+    for (auto &kv : j.at("other").o) tot.other[kv.first] += (uint64_t) kv.second.as_int();
+    for (size_t i = 0; i < j.at("samples").size(); i++) if (tot.samples.size() < 2) tot.samples.push_back(j.at("samples")[i].s);
+    if (j.num("nondet")) { machinery = true; machinery_info = j.str("nondet_info"); }
+    // union of distinct hashes
+    FILE *f = fopen((tmpdir + "/h" + std::to_string(w)).c_str(), "rb");
+    if (f) {
+      uint64_t h, prev = 1; int section = 0;
+      while (fread(&h, 8, 1, f) == 1) {
+        if (h == 0 && prev == 0) { section++; prev = 1; continue; }
+        if (h == 0) { prev = 0; continue; }
+        prev = h;
+        if (section == 0) tot.hashes.insert(h); else if (section == 1) tot.scheds.insert(h); else tot.tuples.insert(h);
+      }
+      fclose(f);
+    }
+  }
+  for (int w = 0; w < nw; w++) unlink((tmpdir + "/h" + std::to_string(w)).c_str());
+  rmdir(tmpdir.c_str());
+  if (machinery) { fprintf(stderr, "MACHINERY: %s\n", machinery_info.c_str()); return 2; }
+
+  // ---- violations: minimise, gate, report
+  std::vector<KnownFinding> known = load_known(known_path);
+  int new_violations = 0, known_hits = 0;
+  Json vio = Json::arr();
+  int handled = 0;
+  std::set<std::string> printed_known;
+  for (auto &kv : found) {
+    Found &f = kv.second;
+    const KnownFinding *kf = match_known(known, f.prop, f.sig);
+    if (kf) {
+      known_hits++;
+      if (!printed_known.count(kf->signature)) {
+        printf("KNOWN-FINDING: property=%s %s [%s]\n", f.prop.c_str(), kf->what.c_str(), kf->signature.c_str());
+        printed_known.insert(kf->signature);
+      }
+      vio.push(Json::obj().set("signature", f.sig).set("known", true).set("count", (unsigned long long) f.count));
+      continue;
+    }
+    if (handled++ >= 6) { new_violations++; continue; }
+    Json pj;
+    Plan plan;
+    if (!Json::parse(f.plan_json, pj) || !Plan::from_json(pj, &plan)) { fprintf(stderr, "MACHINERY: cannot re-read plan\n"); return 2; }
+    // gate 1: the violation must reproduce in a fresh process
+    CaseResult c1 = run_case_forked(*cfg, plan);
+    if (!has_viol(c1, f.prop, f.cls)) { fprintf(stderr, "MACHINERY: violation %s (seed %llu) does not reproduce in a fresh process\n", f.sig.c_str(), (unsigned long long) f.seed); return 2; }
+    int used = 0;
+    Plan small = f.cls == "crash" && !c1.ok ? shrink_plan(*cfg, plan, f.prop, f.cls, 120, &used) : shrink_plan(*cfg, plan, f.prop, f.cls, 250, &used);
+    // gate 2: same minimised plan, two fresh processes, identical class and identical event-log hash
+    CaseResult a = run_case_forked(*cfg, small), b = run_case_forked(*cfg, small);
+    std::string sig, detail;
+    if (!has_viol(a, f.prop, f.cls, &sig, &detail) || !has_viol(b, f.prop, f.cls) || a.log_hash != b.log_hash) {
+      fprintf(stderr, "MACHINERY: minimised plan for %s is not reproducible (hash %llx vs %llx)\n", f.sig.c_str(), (unsigned long long) a.log_hash, (unsigned long long) b.log_hash);
+      return 2;
+    }
+    // the minimised plan may carry a more specific signature that is a known finding
+    const KnownFinding *kf2 = match_known(known, f.prop, sig);
+    if (kf2) {
+      known_hits++;
+      if (!printed_known.count(kf2->signature)) { printf("KNOWN-FINDING: property=%s %s [%s]\n", f.prop.c_str(), kf2->what.c_str(), kf2->signature.c_str()); printed_known.insert(kf2->signature); }
+      continue;
+    }
+    std::string safe = f.cls;
+    for (auto &ch : safe) if (!isalnum((unsigned char) ch) && ch != '-') ch = '_';
+    std::string path = "replays/" + f.prop + "-" + safe + "-" + std::to_string(f.seed) + ".json";
+    Json rj = Json::obj();
+    rj.set("expect", Json::obj().set("property", f.prop).set("class", f.cls).set("signature", sig).set("log_hash", (unsigned long long) a.log_hash));
+    rj.set("detail", detail);
+    rj.set("found_with_seed", (unsigned long long) f.seed);
+    rj.set("occurrences_in_this_run", (unsigned long long) f.count);
+    rj.set("shrink_runs", used);
+    rj.set("replay_cmd", "bin/simcheck --replay " + path);
+    rj.set("plan", small.to_json());
+    std::ofstream(path) << rj.dump(1) << "\n";
+    char cwd[4096];
+    std::string abs = std::string(getcwd(cwd, sizeof cwd) ? cwd : ".") + "/" + path;
+    printf("VIOLATION property=%s replay=%s\n", f.prop.c_str(), abs.c_str());
+    printf("  signature: %s\n  detail: %s\n  ops after minimisation: %zu (from %zu), faults: %zu, seed %llu, seen %llu times\n", sig.c_str(), detail.c_str(), small.ops.size(),
+           plan.ops.size(), small.faults.size(), (unsigned long long) f.seed, (unsigned long long) f.count);
+    vio.push(Json::obj().set("signature", sig).set("known", false).set("replay", abs).set("count", (unsigned long long) f.count));
+    new_violations++;
+  }
+
+  // ---- evidence
+  double wall = now_s() - t0;
+  Json ev = Json::obj();
+  ev.set("property_id", cfg->id).set("tier", thorough ? "thorough" : "quick").set("seed", (unsigned long long) seed).set("level", cfg->level);
+  Json cov = Json::obj();
+  cov.set("evaluations", (unsigned long long) tot.cases);
+  cov.set("distinct_nontrivial", (unsigned long long) tot.hashes.size());
+  cov.set("rule", cfg->rule);
+  Json samples = Json::arr();
+  for (auto &s : tot.samples) { Json pj; if (Json::parse(s, pj)) samples.push(pj); }
+  cov.set("samples", samples);
+  cov.set("exhaustive", false);
+  cov.set("scenarios", (unsigned long long) tot.scenarios);
+  cov.set("nontrivial_cases", (unsigned long long) tot.nontrivial);
+  cov.set("distinct_interleavings", (unsigned long long) tot.scheds.size());
+  cov.set("distinct_op_state_outcome_tuples", (unsigned long long) tot.tuples.size());
+  cov.set("cases_with_fired_fault", (unsigned long long) tot.faults_fired);
+  cov.set("simulated_calls", (unsigned long long) tot.calls);
+  cov.set("context_switches", (unsigned long long) tot.switches);
+  cov.set("simulated_seconds", (double) tot.sim_ns / 1e9);
+  cov.set("runs_per_hour", wall > 0 ? (double) tot.cases / wall * 3600.0 : 0.0);
+  cov.set("hung_runs_classified", (unsigned long long) tot.hung);
+  cov.set("runs_cut_by_call_cap", (unsigned long long) tot.capped);
+  cov.set("determinism_rechecks", (unsigned long long) tot.rechecks);
+  Json fired = Json::obj();
+  for (int i = 0; i < K_COUNT; i++) if (tot.fired[i]) fired.set(kind_name[i], (unsigned long long) tot.fired[i]);
+  cov.set("faults_fired_by_call", fired);
+  Json kc = Json::obj();
+  for (int i = 0; i < K_COUNT; i++) if (tot.kind_calls[i]) kc.set(kind_name[i], (unsigned long long) tot.kind_calls[i]);
+  cov.set("simulated_calls_by_kind", kc);
+  Json pr = Json::obj();
+  for (int i = 0; i < P_COUNT; i++) pr.set(probe_name[i], (unsigned long long) tot.probes[i]);
+  cov.set("probes", pr);
+  Json oth = Json::obj();
+  for (auto &kv : tot.other) oth.set(kv.first, (unsigned long long) kv.second);
+  cov.set("other_property_signatures_seen", oth);
+  cov.set("components", Json::obj()
+                            .set("real", "reproc/src/*.c (POSIX) and reproc++/src/reproc.cpp + headers, compiled from /repo's working tree by this check")
+                            .set("stub", "libc system-call layer (simk), child programs (scripts), clock, scheduler; allocator = real malloc behind a ledger shim")
+                            .set("lane", lane));
+  cov.set("violations_detail", vio);
+  ev.set("coverage", cov);
+  ev.set("assumptions", Json::arr()
+                            .push("simk's model of Linux pipe/poll/fork/exec/wait/signal semantics (calibrated by the conformance self-test)")
+                            .push("pre-emption at simulated-call granularity; the child phase between fork and exec is atomic w.r.t. sibling threads")
+                            .push("sampling: a clean batch is evidence over the explored plans, not a proof"));
+  ev.set("wall_s", wall);
+  ev.set("violations", new_violations);
+  ev.set("known_findings_hit", known_hits);
+  ev.set("workers", nw);
+  std::ofstream(evidence_dir + "/" + cfg->id + ".json") << ev.dump(1) << "\n";
+  printf("%s %s: %llu cases (%llu distinct non-trivial), %llu scenarios, %.1f s, %.0f cases/s, %llu new violation signature(s), %d known\n", cfg->id, tier.c_str(),
+         (unsigned long long) tot.cases, (unsigned long long) tot.hashes.size(), (unsigned long long) tot.scenarios, wall, wall > 0 ? (double) tot.cases / wall : 0.0,
+         (unsigned long long) new_violations, known_hits);
+  for (auto &kv : tot.other) if (getenv("SIM_VERBOSE")) printf("  (other property) %s x%llu\n", kv.first.c_str(), (unsigned long long) kv.second);
+  return new_violations ? 1 : 0;
 }
